@@ -181,6 +181,14 @@ def t2(ctx, py: PyRepo):
     # metavars: compositional by design - every metavariable of the body is either replaced by the metavariables of its plug or kept
     fn = ci.methods.get('metavars')
     ctx.ob('notation-delegates', 'Instantiate.metavars', fn is not None, 'Instantiate must define metavars', py.where('pattern', fn or ci.node))
+    # equality on the constructor classes is the structural dataclass equality (the notation node is the only override)
+    for cname in sorted(CONCRETE):
+        c = py.cls(cname, 'pattern')
+        deco = [d for d in c.decorators if d.startswith('dataclass')]
+        ok = bool(deco) and 'eq=False' not in ''.join(deco) and '__eq__' not in c.methods and '__ne__' not in c.methods
+        ctx.ob('structural-equality', cname, ok,
+               f'{cname} must keep the generated dataclass equality (all fields): a hand-written __eq__ or eq=False changes what '
+               f'"equal patterns" means for every rule check', py.where('pattern', c.node), facts={'decorators': c.decorators})
     # T3 advisory: __eq__ without __hash__ coherence
     ctx.advisory('Instantiate.__eq__ compares expansions but the dataclass hash is structural: a notation application and its expansion '
                  'are equal and hash differently (dictionaries in the tool key by definition, not by instance); reported, not a violation')
@@ -192,6 +200,7 @@ def run(ctx):
     t2(ctx, py)
     ctx.floor('dispatch-sees-through', 8)
     ctx.floor('notation-delegates', 6)
+    ctx.floor('structural-equality', 10)
     ctx.explanation = (
         '(T1) every function of pattern.py and the notation libraries that dispatches on the concrete constructor of a pattern '
         '(isinstance / match, asserts excluded) has a branch that expands a notation node and re-dispatches, so a notation application is '
